@@ -100,6 +100,14 @@ def run(chk):
                      "function main() -> void { int[] a = {1}; echo(a[- -%s]); }", "function main() -> void { qubit[%s] q; }",
                      "function main() -> void { int x = 1; echo(x[-%s][-%s]); }"):
             inputs.append((form.replace("%s", n)).encode())
+    # constant expressions the analyser folds itself (array sizes, final ints): division and modulo at the int limits, by zero, nested
+    for ce in ("(-2147483647 - 1) / -1", "(-2147483647 - 1) % -1", "(-2147483647 - 1) % -1 + 2", "4 / 0", "4 % 0", "2147483647 + 1", "-(-2147483647 - 1)",
+               "(-2147483647 - 1) * -1", "7 / -1", "((-2147483647 - 1) / -1) / -1", "(int) ((-2147483647 - 1) / -1)", "2147483647 * 2147483647",
+               "(0 - 2147483647 - 1) / (0 - 1)", "1 / (1 - 1)"):
+        inputs.append(("function main() -> void { int[%s] a; echo(1); }" % ce).encode())
+        inputs.append(("function main() -> void { final int n = %s; int[n] a; echo(1); }" % ce).encode())
+        inputs.append(("function main() -> void { final int m = -1; int[(-2147483647 - 1) / m] a; final int k = %s; }" % ce).encode())
+        inputs.append(("class B { public int[%s] xs; public constructor() -> B = default; }\nfunction main() -> void { B b = new B(); }" % ce).encode())
     inputs += [b"@shots(99999999999) function main() -> void { }", b"@shots(5) function main() -> void { }",
                b"@quantum function f() -> bit { qubit q; return measure q; }", b"function main() -> void { int[99999999999] a; }"]
     # structured analyser hazards: inheritance graphs with cycles, self-extension, chains leading into a cycle (under many class
